@@ -101,9 +101,10 @@ CHECKS: dict[str, dict[str, str]] = {
              'of the stop flag, instant-exit windows) / _runner / the exiting daemon_killer / apply (patch | sleep | touch); TLC checks its '
              'invariants, the bounded completion of a deletion for 96 timed configurations, negative and witness configurations, and explains '
              'every recorded execution as one of its behaviours (a spawn, flag, cancellation, finalizer write, sleep or touch too early or too '
-             'late is a rejection). Synchronous daemons and timers run as virtual threads.',
-        note='threads advance in lock-step with the virtual loop (no preemption inside a thread); the pausing branch of the daemon killer is '
-             'judged by clauses of Trace_Peering, not by Spawning.tla; flag observation requires the scripted daemon to wait on `stopped`',
+             'late is a rejection). The pausing branch (a foreign peering record pauses the operator: a round of stop_daemon() per second, streams closed '
+             'a moment after the toggle, re-listing on resume) is part of the model and of the executions. Synchronous daemons and timers run as virtual threads.',
+        note='threads advance in lock-step with the virtual loop (no preemption inside a thread); Spawning.tla has spawning handlers only (the mix '
+             'with change handlers on one object is judged by the automaton); flag observation requires the scripted daemon to wait on `stopped`',
         ref='DESIGN.md 4/C09'),
     'C10': dict(
         technique='explicit TLA+ transcription of the timer loop (Timers.tla) checked exhaustively with TLC; start/end instants of the real '
